@@ -2,6 +2,16 @@
 """Adds the 'needs' text to seeded/*/meta.json (from the table below) and regenerates seeded/README.md."""
 import json, os, glob
 NEEDS = {
+ 'C01c-old-name-existed-arm': '.orig-style differing names whose old name was on disk at the start and was removed by an earlier patch of the same push (reported by C16 and C09; C01 pushes single patches)',
+ 'C04c-deleted-flag-restored-before-undo': 'an existing zero-length file, a /dev/null creation onto it and a sibling entry of the same patch that fails: rolling back removes the empty file',
+ 'C08c-mode-not-restored-without-mode-line': 'a file with a non-default mode deleted by one patch and re-created by a later one in the same invocation, with backups: the backup of the deleting patch gets the default mode',
+ 'C10c-dry-run-stops-at-any-failure': '--dry-run --threads >= 2, two broken patches on files of different workers, the worker of the later one recording its failure first',
+ 'C11c-closest-match-start-line-underflow': 'a failing hunk without -q whose first matching line sits deeper in the hunk than in the file (file c d e, hunk a b c d)',
+ 'C15c-create-resets-record': 'one push in which an earlier patch deletes (or renames away) a hard-linked file and a later patch creates that name again',
+ 'C16c-default-strip-zero-with-options': 'a series line with options but without -p (p1.patch -R): applied at -p0',
+ 'C18c-write-instead-of-write-all': 'a written file with a line of 8192 bytes or more and a short write inside that line',
+ 'C19c-check-after-drain-parallel': 'the parallel driver (--threads >= 2): the name check runs on an already drained list and passes everything',
+ 'C20c-report-capacity-from-fuzz': 'a --fuzz limit around 2*10^17 or larger: capacity overflow panic',
  'C02c-empty-side-line-from-wrong-count': 'a hunk with exactly one empty side (diff -U0 pure deletion) applied with -R: the new-side line is off by one, the insertion lands one line early (reported by C01 and C12; C02 leaves context-free empty-side hunks to C01)',
  'C03c-line-count-diff-ignores-direction': 'a -R entry whose file patch has two hunks, an earlier one changing the line count: later hunks are spliced at positions shifted by twice that change',
  'C05c-failure-index-stored-not-min': 'same slip as C06-fetch-min-to-store, written for C05: schedule-dependent, so C05 (serial schedule) is silent and C06 reports it',
